@@ -12,6 +12,7 @@ import re
 from fractions import Fraction
 
 from core import enc_bool, enc_str
+import lib_frames_bars
 from lib_frames import Batch, Env, Leaf, box_names, build, canon_measure, canon_render, render_segments, rule_title_plain, runs, style_complete, title_plain
 
 PROPERTY = "C08"
@@ -795,7 +796,7 @@ def rand_expr(rng, nleaves, depth, names):
     k = rng.choice(["PAD", "PAD", "PANEL", "PANEL", "ALIGN", "ALIGN", "CONSTRAIN", "STYLED", "TREE", "VC"])
     sub = rand_expr(rng, nleaves, depth - 1, names)
     if k == "PAD":
-        return ("PAD", rng.choice([0, 1, 2, (1, 2), (0, 1, 2, 3), (2, 0, 0, 1), (3,)]), rng.random() < 0.5, sub, rng.choice(STYLES))
+        return ("PAD", rng.choice([0, 1, 2, (1, 2), (0, 1, 2, 3), (2, 0, 0, 1), (3,), (0, 2, 0, 0), (1, 1, 0, 0), (0, 0, 2, 0)]), rng.random() < 0.5, sub, rng.choice(STYLES))
     if k == "PANEL":
         return ("PANEL", rand_panel_opts(rng, names), sub)
     if k == "ALIGN":
@@ -857,7 +858,7 @@ def run_histories(wd, rng, names, nl, quick):
                                     "box": rng.choice(names), "style": rng.choice(STYLES), "padding": rng.choice([0, (0, 1), (1, 2)])}, L()))
     exprs.append(("PANEL", {}, ("PBAR", {"total": 10, "completed": 3, "width": None, "pulse": True, "time": Fraction(7, 4)})))
     for ex in (True, False):
-        exprs.append(("PAD", rng.choice([1, (0, 2), (1, 0, 0, 3)]), ex, L(), rng.choice(STYLES)))
+        exprs.append(("PAD", rng.choice([1, (0, 2), (1, 0, 0, 3), (0, 3, 0, 0), (2, 1, 0, 0)]), ex, L(), rng.choice(STYLES)))
     for al in ("left", "center", "right"):
         exprs.append(("ALIGN", {"align": al, "pad": rng.random() < 0.5, "width": rng.choice([None, 6]), "style": rng.choice([None] + STYLES)}, L()))
     exprs.append(("CONSTRAIN", rng.choice([None, 5, 12]), L()))
@@ -877,6 +878,61 @@ def run_histories(wd, rng, names, nl, quick):
                 wd.history(e, sq)
         for sq in (seqs if not quick else rng.sample(seqs, 2 if leafless(e) else 3)):
             wd.history(e, sq)
+
+
+def run_text_titles(ctx, quick):
+    """Direct evaluation of panel_text_title_top_border / rule_text_title_fills_width (deepening round 4) on real rich: Text
+    titles with a span, a tab, a line feed, wide characters, longer than the panel, every own overflow method except
+    "ignore" (the theorem's hypothesis; "ignore" is only counted), 3 alignments, widths 4..17; rules with the same titles
+    and wide / multi-character `characters`."""
+    import io
+    from rich.cells import cell_len
+    from rich.console import Console
+    from rich.panel import Panel
+    from rich.rule import Rule
+    from rich.text import Text
+    from rich import box as rbox
+    titles = [("a", []), ("a\tbc", [(0, 3, "bold")]), ("\u3042\u3044 x\ny", [(1, 4, "red")]), ("a long title that is longer", [(2, 9, "italic")]),
+              ("\u3042\u3042\u3042\u3042\u3042\u3042\u3042\u3042", []), (" sp ", [(0, 4, "underline")])]
+    widths = (4, 5, 6, 7, 9, 12, 17) if quick else range(4, 40)
+    for legacy, ascii_only in ((False, False), (True, False)):
+        for w in widths:
+            console = Console(file=io.StringIO(), width=w, color_system="truecolor", legacy_windows=legacy, force_terminal=True, _environ={})
+            for plain, spans in titles:
+                for ov in ((None, "crop", "ellipsis", "ignore") if quick else (None, "fold", "crop", "ellipsis", "ignore")):
+                    for align in ("left", "center", "right"):
+                        def mk():
+                            t = Text(plain, overflow=ov, tab_size=ctx.rng.choice([8, 4, 1]), justify=ctx.rng.choice([None, "center", "right", "full"]))
+                            for a, b, st in spans:
+                                t.stylize(st, a, b)
+                            return t
+                        inp = (w, legacy, plain, spans, ov, align)
+                        try:
+                            segs = list(console.render(Panel("hi", title=mk(), title_align=align, box=ctx.rng.choice([rbox.ROUNDED, rbox.ASCII, rbox.HEAVY, rbox.DOUBLE])), console.options))
+                            lines = "".join(s.text for s in segs if not s.is_control).split("\n")
+                            if lines and lines[-1] == "":
+                                lines.pop()
+                            ws = [cell_len(l) for l in lines]
+                            if ov == "ignore":
+                                ctx.note("Panel:text-title:overflow-ignore:" + ("top-border-longer" if ws and ws[0] > max(ws[1:] or [0]) else "rectangle"))
+                            else:
+                                ctx.check(len(ws) >= 2 and len(set(ws)) == 1 and ws[0] == w, "Panel:text-title", inp,
+                                          f"Panel with a Text title at width {w}: line widths {ws} (top border must be exactly the panel's width)")
+                                ctx.note("Panel:text-title:ok")
+                        except BaseException as e:  # an undocumented exception is a property failure
+                            ctx.check(False, "Panel:text-title", inp, f"raised {type(e).__name__}: {e}")
+                        for chars in (ctx.rng.sample(["\u2500", "-=", "\u3042", "\u3042-"], 1) if quick else ("\u2500", "-=", "\u3042", "\u3042-")):
+                            try:
+                                end = ctx.rng.choice(["\n", ""])
+                                segs = list(console.render(Rule(mk(), characters=chars, align=align, end=end), console.options))
+                                text = "".join(s.text for s in segs if not s.is_control)
+                                body = text[:len(text) - len(end)] if end else text
+                                exp_chars = "-" if (console.options.ascii_only and not chars.isascii()) else chars
+                                ctx.check(text.endswith(end) and "\n" not in body and cell_len(body) == w, "Rule:text-title", inp + (chars, end),
+                                          f"Rule with a Text title and characters {exp_chars!r} at width {w}: {text!r} is {cell_len(body)} cells")
+                                ctx.note("Rule:text-title:ok")
+                            except BaseException as e:
+                                ctx.check(False, "Rule:text-title", inp + (chars,), f"raised {type(e).__name__}: {e}")
 
 
 def run(ctx):
@@ -930,7 +986,8 @@ def run(ctx):
         leaf_ids = (range(nl) if ei < 1 else rng.sample(range(nl), 8 if ei < 2 else 4)) if quick else range(nl)
         for i in leaf_ids:
             L = ("L", i)
-            for pad in [0, 1, (1, 2), (0, 1, 2, 3), (2, 0, 1, 0), (0, 0, 0, 2)]:
+            # (0, 3, 0, 0) / (1, 2, 1, 0): left == 0 with right > 0 (a right-pad guard testing `self.left` was missed before round 6); each side zero / non-zero alone
+            for pad in [0, 1, (1, 2), (0, 1, 2, 3), (2, 0, 1, 0), (0, 0, 0, 2), (0, 3, 0, 0), (1, 2, 1, 0)]:
                 for ex in (True, False):
                     exprs.append(("PAD", pad, ex, L, rng.choice(STYLES)))
             for al in ("left", "center", "right"):
@@ -1016,6 +1073,8 @@ def run(ctx):
                   f"the line holding the bar is {cell_len(first)} cells wide in a width of 9: {first!r}",
                   finding="progressbar-no-newline" if narrow else None)
         run_columns(ctx, env, rng, 45 if quick else 450)
+    run_text_titles(ctx, quick)
+    lib_frames_bars.run_bars(ctx, quick)      # styled Bar / ProgressBar (flushes itself)
     ctx.rule = (
         "per console environment (%d of them: widths %s, ascii_only / legacy_windows / no_color / colour systems / safe_box): every one of %d leaf children "
         "(empty, one word, wrapping, multi-line, wide, zero-width, centred, right, no_wrap+ellipsis, blank lines, Panel, str, Table, tab; quick tier: all of them "
@@ -1026,7 +1085,7 @@ def run(ctx):
         "plus 6 markup / tab / span titles), bars and progress bars (grid + random ints / dyadic), "
         "each at every available width 0..console+3, +6, +8 (or a sample when wide); Columns grid: item counts 0..13 x options x widths. "
         "distinct = distinct (environment, leaves, query) requests" % (len(envs), [e.width for e in envs], nl)
-    )
+    ) + " | Text titles (direct evaluation only): 6 titles x 5 overflow methods x 3 alignments x widths 4..17 (7 of them; 4..39 thorough; fold only thorough) x 2 consoles, Panel + Rule with 1 of 4 `characters` (all 4 in the thorough tier) | " + lib_frames_bars.BARS_RULE
 
 
 def replay(ctx, case):
@@ -1049,16 +1108,29 @@ MANIFEST = {
     "every item exactly once, row-first / column-first closed form / right-to-left, blanks only at the end of the last row), columns_rendered_cells (the rendered "
     "grid table's cell (r, j) IS that item's oracle), columns_repaired_never_raises; tree_walk_is_depth_first (the explicit stack machine of Tree.__rich_console__, "
     "with termination, equals the depth-first reference walk), tree_prefix_four_cells_per_level, tree_rect; panel_title_own_width. "
+    "Deepening round 4 (61 theorems in all): rule_text_title_fills_width (Rule.__rich_console__ on real Text values through C05's Text / C02's Wrap models: ANY title text - spans, "
+    "tabs, line feeds, wide characters, longer than the rule -, any `characters` without line feed / tab / stripped control code, any alignment / end / justify / overflow / no_wrap "
+    "in force, any width >= 1: nothing raises, ONE line of exactly w cells + end), panel_text_title_own_width and panel_text_title_top_border (any consistent Text title whose own "
+    "overflow is not \"ignore\": Panel._title succeeds and the top border is exactly the panel's width); progress_bar_styled_split (ProgressBar, no pulse: every cell with its style "
+    "id - complete / finished / background -, half-bar arithmetic, total = 0, completed beyond the total or negative, width option or not; exactly `width` cells with colour, never more "
+    "without), progress_bar_styled_erases_to_text, progress_bar_finished_is_full, bar_styled_shape, bar_styled_erases_to_text. "
     "Witnesses (old_…) for every defect found: zero-width child (F25), rule right / rstrip, Columns zero division (F11), panel content pad unstyled, panel title at "
     "console width, rule without title ignoring `end`. "
     "Tie: ~67k (quick) / ~800k (thorough) generated (environment, options, child, frame options, width) cases per run compared between the Lean model and real rich — "
     "styled frames segment style by segment style, Panel titles and Rule texts through C05's Text and C02's Wrap models, Columns to the characters through C01's "
     "composition layer and C07's table model — with the children tabulated on real rich, plus the theorems' statements evaluated on rich's own output by an independent oracle.",
     "note": "Trusted: Lean kernel; axioms propext/Classical.choice/Quot.sound; translators harness/tables.py + harness/gen/boxes.py; the correspondence harness. "
-    "Partial: styles of Bar / ProgressBar / Tree guides / the inner table of Columns are not modelled (text only); Style.__add__ is restated on the five compared fields "
+    "Partial: styles of Tree guides / the inner table of Columns are not modelled (text only); Bar / ProgressBar styles are modelled as style IDS (complete / finished / back / own / line) "
+    "in Model/FramesBarsStyled.lean and compared with rich segment by segment (frames_pbar_styled ~21.5k, frames_bar_styled 5k cases per quick run); the ProgressBar PULSE path is excluded "
+    "there (it reads monotonic() and blends colours with cos(): answers `unmodelled`, never requested), its width stays with progress_pulse_exact_width; Style.__add__ is restated on the five compared fields "
     "in the driver (C06 owns the proof about the real class); Bar / ProgressBar floats are exact rationals (generated inputs are ints / dyadic); "
     "Panel `highlight`, Tree `highlight`, `Text.render` raising on inconsistent spans (answers `unmodelled`). "
-    "Panel titles / Rule texts as Text objects (Model/FramesTitle.lean) are compared with rich, no theorem is stated about them. "
+    "Panel titles / Rule texts as Text objects (Model/FramesTitle.lean) are compared with rich AND have theorems since round 4 (above); their hypotheses: the title is a consistent Text "
+    "(Text.Inv) with a positive tab_size, repaired code (WVariant.repaired); for Panel additionally the title's own overflow is not \"ignore\" - Text.align truncates with the text's OWN "
+    "overflow method, so Panel(title=Text(long, overflow=\"ignore\")) has a top border as long as the title (observed on real rich and only COUNTED: "
+    "Panel:text-title:overflow-ignore:top-border-longer; C01 / C02 treat overflow \"ignore\" as overflow by request in the same way); the theorems are about the title part / one rule, "
+    "panel_border_style still takes the title as an arbitrary oracle (no NlFreeO proof for textTitleO at widths other than the aligned one). Columns: columns_rendered_cells is not composed "
+    "with C07's table theorems into one statement (round-4 target 3, not done). "
     "Code variant flags, all 0 = repaired, the code in /repo now: ZERO_WIDTH_CHILD = 0 (fix a9def3a), RULE_RIGHT_REPEAT = 0 (fix 8879061), "
     "RSTRIP_COUNTS_CHARS = 0 (fix f5f2be9), COLUMNS_ZERO_COUNT = 0 (fix f7ecf83), LINES_PAD_UNSTYLED = 0 (fix 63e086e; finding panel-content-pad-unstyled), "
     "TITLE_AT_CONSOLE_WIDTH = 0 (fix 0e1edf7; findings panel-title-at-console-width and panel-title-ellipsis-in-zero-cells), "
